@@ -631,19 +631,23 @@ def apply_proj(base, pj, idx=None):
 
 
 def _split_top(inner):
+    """Split at top-level commas; (), {}, [] and the angle brackets of type paths nest
+    (`->` of fn types is not a bracket)."""
     depth = 0
     parts = []
     cur = ""
+    prev = ""
     for ch in inner:
-        if ch in "({[":
+        if ch in "({[<":
             depth += 1
-        elif ch in ")}]":
+        elif ch in ")}]" or (ch == ">" and prev != "-"):
             depth -= 1
         if ch == "," and depth == 0:
             parts.append(cur.strip())
             cur = ""
         else:
             cur += ch
+        prev = ch
     if cur.strip():
         parts.append(cur.strip())
     return parts
@@ -679,21 +683,7 @@ def _agg_field(s, fname):
     if "(" in head or " " in head or "phi" in head:
         return None
     inner = s[i + 1 : -1]
-    depth = 0
-    parts = []
-    cur = ""
-    for ch in inner:
-        if ch in "({[":
-            depth += 1
-        elif ch in ")}]":
-            depth -= 1
-        if ch == "," and depth == 0:
-            parts.append(cur)
-            cur = ""
-        else:
-            cur += ch
-    if cur.strip():
-        parts.append(cur)
+    parts = _split_top(inner)
     for p in parts:
         p = p.strip()
         if p.startswith(fname + ": "):
